@@ -15,20 +15,21 @@
      * foreign messages are the environment's;
      * at the end the member has decided in the specification iff its subscriber was called, with the same value and round.
    Tolerated imprecision of the observation itself (the sniffer records a message AFTER the channel send, on another
-   goroutine): two transcript entries may be swapped when they are at most W-1 positions apart, and the message that
-   triggered the decision may be missing (the instance ends before it is recorded): then ONE hidden delivery of a COMMIT /
-   DECIDED message that was on the wire for the decided value is allowed right before Final.
+   goroutine): two transcript entries may be swapped when they are at most W-1 positions apart, and the last messages
+   consumed before the decision may be missing (the instance ends before they are recorded): hidden deliveries of at most two
+   own broadcasts and one foreign PREPARE / COMMIT / DECIDED that was on the wire for the decided value are allowed right
+   before Final.
    All members are declared honest (Byz = {}) and only P ever steps; the other members' state stays initial. *)
 EXTENDS QBFTTrace
+CONSTANT W        \* tolerated displacement of a transcript entry (3; 8 for the re-check of a rejected transcript)
 VARIABLES done,     \* positions above l consumed out of order
           looped,   \* own messages already looped back
-          hid,      \* the hidden last delivery was used
+          hid,      \* hidden deliveries used at the end: [own: 0..2, foreign: BOOLEAN]
           nto       \* silent Timeout steps so far
 nvars == <<vars, tr, l, done, looped, hid, nto>>
 Cfg == Trace[1]
 P == Cfg.p
-W == 3
-NInit == TraceInit /\ done = {} /\ looped = {} /\ hid = FALSE /\ nto = 0
+NInit == TraceInit /\ done = {} /\ looped = {} /\ hid = [own |-> 0, foreign |-> FALSE] /\ nto = 0
 Keep == UNCHANGED <<tr, l, done, looped, hid, nto>>
 NextFree(from) == CHOOSE j \in from..(TLen + 1) : j \notin done /\ \A k \in from..(j - 1) : k \in done
 Consume(i) == /\ tr' = tr
@@ -52,15 +53,23 @@ NDeliver == \E i \in Window :
               /\ Consume(i) /\ UNCHANGED <<hid, nto>>
 AtFinal == l <= TLen /\ Trace[l].ev = "Final" /\ done = {}
 Cands == {MsgOf(c) : c \in SeqToSet(Cfg.cands)}
-NHidden == /\ AtFinal /\ Trace[l].decided /\ ~st[P].decided /\ ~hid
-           /\ \E m \in Cands : (m.src = P => m \in msgs /\ m \notin looped) /\ Deliver(P, m)
-           /\ hid' = TRUE /\ UNCHANGED <<tr, l, done, looped, nto>>
+\* the end of the transcript may be short of what the member consumed just before it decided: its transport records a message
+\* after the hand-over, each own broadcast on a goroutine of its own (at most 2 tolerated), foreign messages on one goroutine
+\* (so at most 1), and the instance ends with the decision
+CanHide == AtFinal /\ Trace[l].decided /\ ~st[P].decided
+NHiddenOwn == /\ CanHide /\ hid.own < 2
+              /\ \E m \in msgs : m.src = P /\ m \notin looped /\ Deliver(P, m) /\ looped' = looped \cup {m}
+              /\ hid' = [hid EXCEPT !.own = @ + 1] /\ UNCHANGED <<tr, l, done, nto>>
+NHiddenForeign == /\ CanHide /\ ~hid.foreign
+                  /\ \E m \in Cands : m.src # P /\ Deliver(P, m)
+                  /\ hid' = [hid EXCEPT !.foreign = TRUE] /\ UNCHANGED <<tr, l, done, looped, nto>>
+NHidden == NHiddenOwn \/ NHiddenForeign
+\* a member that was cut off (crash, end of the run) may have consumed a last message the transcript does not show: its round
+\* and timeout count are then not compared
 NFinal == /\ AtFinal
           /\ LET e == Trace[l] IN
              /\ e.decided = st[P].decided
-             /\ e.decided => (st[P].dval = e.v /\ st[P].dround = e.round)
-             /\ nto = Cfg.timeouts
-             /\ st[P].round = Cfg.lastround
+             /\ e.decided => (st[P].dval = e.v /\ st[P].dround = e.round /\ nto = Cfg.timeouts /\ st[P].round = Cfg.lastround)
           /\ Consume(l) /\ UNCHANGED <<vars, looped, hid, nto>>
 NNext == NReset \/ NStart \/ NInput \/ NTimeout \/ NDeliver \/ NHidden \/ NFinal
 NSpec == NInit /\ [][NNext]_nvars
